@@ -23,6 +23,9 @@ type Cfg struct {
 	StatMs uint32  `json:"stat_ms"`
 	QMs    uint32  `json:"max_queue_ms"`
 	Conc   bool    `json:"concurrent,omitempty"`
+	// DefaultMs: the default statistic interval the process is configured with (0 = 1000). A rule that leaves its
+	// own interval unset counts its threshold over that one.
+	DefaultMs uint32 `json:"default_stat_ms,omitempty"`
 }
 
 type P struct{}
@@ -36,7 +39,7 @@ func (P) Describe() harness.Description {
 	return harness.Description{
 		MustHit: []string{"request_queued", "rejected_for_queueing", "concurrent_request_queued"},
 		Level:   "exploration",
-		Rule: "case = (throttling rule: threshold in {0, 0.5, 1..1000}, statistic interval {default, 100 ms, 1 s, 10 s}, max queueing time {0, 1, 10, 100, 500, 2000 ms}; E1: 10-60 requests with batches and nanosecond ticks biased to the pacing interval and the queueing limit, the requested Sleep is captured at the clock seam without advancing time so queues build up; E2 (35%): 2-3 callers with 2-6 requests each, ticks allowed while a caller is between its atomic add and its roll-back, callers really park for their requested wait in virtual time). " +
+		Rule: "case = (throttling rule: threshold in {0, 0.5, 1..1000}, statistic interval {unset with a configured default of 500 ms / 1 s / 2 s, 100 ms, 1 s, 10 s}, max queueing time {0, 1, 10, 100, 500, 2000 ms}; E1: 10-60 requests with batches and nanosecond ticks biased to the pacing interval and the queueing limit, the requested Sleep is captured at the clock seam without advancing time so queues build up; E2 (35%): 2-3 callers with 2-6 requests each, ticks allowed while a caller is between its atomic add and its roll-back, callers really park for their requested wait in virtual time). " +
 			"E1: decision and requested wait equal the reference queue (admit at max(now,last+D) unless that wait exceeds the limit or batch > threshold; D = ceil(batch*interval/threshold) with a 1 ns rounding band). E2: admitted requests ordered by pass time (arrival the check read + requested wait) are each >= D(own batch) after their predecessor, no wait above the limit. " +
 			"non-trivial = at least one request waited and at least one was rejected for queueing; distinct = hash(config, ops[, schedule])",
 		Assumptions: []string{"pacing interval D = ceil(batch*interval/threshold) ns; the implementation computes it in floating point, a difference of 1 ns is inside the band", "E2: arrival = the nanosecond clock value the admission check received (recorded at the clock seam), wait = the Sleep it requested"},
@@ -47,6 +50,9 @@ func (P) Describe() harness.Description {
 
 func intervalNs(cfg *Cfg) uint64 {
 	if cfg.StatMs == 0 {
+		if cfg.DefaultMs != 0 {
+			return uint64(cfg.DefaultMs) * 1e6
+		}
 		return 1000 * 1e6
 	}
 	return uint64(cfg.StatMs) * 1e6
@@ -75,6 +81,9 @@ func (P) Gen(rng *sim.Rng, tier string) *harness.Case {
 	cfg.T = []float64{0, 0.5, 1, 2, 3, 5, 10, 100, 1000, 7, 2.5}[rng.Intn(11)]
 	cfg.StatMs = []uint32{0, 100, 1000, 1000, 10000}[rng.Intn(5)]
 	cfg.QMs = []uint32{0, 1, 10, 100, 500, 2000}[rng.Intn(6)]
+	if cfg.StatMs == 0 && rng.Chance(0.5) {
+		cfg.DefaultMs = []uint32{2000, 500}[rng.Intn(2)]
+	}
 	if rng.Chance(0.15) {
 		// swarm: limits of seconds to weeks (the field is a uint32 of milliseconds; conversions to ns must not narrow)
 		cfg.QMs = []uint32{4294, 4295, 5000, 6000, 8590, 60000, 3600000, 4294967, 4294967295}[rng.Intn(9)]
@@ -183,7 +192,17 @@ func (P) Exec(c *harness.Case) *harness.Outcome {
 	if cfg.T < 0 || len(c.Callers) == 0 || math.Round(cfg.T*2) != cfg.T*2 {
 		return o
 	}
-	env := harness.Reset(cfg.Origin*1e6, harness.DefaultGeometry())
+	geo := harness.DefaultGeometry()
+	switch cfg.DefaultMs {
+	case 0:
+	case 2000:
+		geo.MetricSamples, geo.MetricInterval = 4, 2000
+	case 500:
+		geo.MetricSamples, geo.MetricInterval = 1, 500
+	default:
+		return o
+	}
+	env := harness.Reset(cfg.Origin*1e6, geo)
 	load(o, &cfg)
 	if o.Failed() {
 		return o
